@@ -72,6 +72,12 @@ _prop_re = re.compile(
 # this is a cache of open databases
 _open_databases = {}
 
+
+# verification hooks (off unless STDNUM_VERIF is set, see /verif/DESIGN.md)
+_vh = None
+if __import__('os').environ.get('STDNUM_VERIF'):  # pragma: no cover
+    import stdnum_verif_hooks as _vh
+
 # the prefixes attribute of NumDB is structured as follows:
 # prefixes = [
 #   [ length, low, high, props, children ]
@@ -170,9 +176,13 @@ def _get_resource_stream(name):
 
 def get(name):
     """Open a database with the specified name to perform queries on."""
+    if _vh: _vh.event('numdb', 'enter', name)  # pragma: no cover
     if name not in _open_databases:
+        if _vh: _vh.event('numdb', 'miss', name)  # pragma: no cover
         import codecs
         reader = codecs.getreader('utf-8')
         with reader(_get_resource_stream(name + '.dat')) as fp:
             _open_databases[name] = read(fp)
+            if _vh: _vh.event('numdb', 'store', name, _open_databases[name])  # pragma: no cover
+    if _vh: _vh.event('numdb', 'ret', name, _open_databases[name])  # pragma: no cover
     return _open_databases[name]
